@@ -131,14 +131,16 @@ func (g *gen) boolExpr(depth int) Expr {
 	}
 }
 
-var textPool = []string{"hello", "a b c", "é ü", "世界", "Tom &amp; Jerry", "1 &lt; 2", "it's", "x", "tail.", "(paren)", "q?", "50%", "a/b", "semi;colon", "the end", "&#233;", "if", "for", "😀 ok", "-", "ifx y", "x \uFFFD y"}
+var textPool = []string{"hello", "a b c", "é ü", "世界", "Tom &amp; Jerry", "1 &lt; 2", "it's", "x", "tail.", "(paren)", "q?", "50%", "a/b", "semi;colon", "the end", "&#233;", "if", "for", "😀 ok", "-", "ifx y", "x \uFFFD y",
+	// backslashes in static text that read like Go escape sequences (no quote, tab or line break next to them)
+	`C:\temp\new_report.txt`, `a\b`, `\x3cb\x3e`, `\u00e9 \201C`, `100\%`}
 
 var inlineNames = []string{"a", "abbr", "b", "button", "code", "em", "i", "label", "small", "span", "strong", "u", "x-item"}
 var blockNames = []string{"div", "p", "ul", "li", "section", "h1", "article", "main", "header", "footer", "td"}
 var voidNames = []string{"br", "hr", "input", "img"}
 
 var constVals = []struct{ val, quote string }{
-	{"v", `"`}, {"a b", `"`}, {"x&amp;y", `"`}, {"it&#39;s", `"`}, {"say &quot;hi&quot;", `"`}, {"a'b", `"`}, {"a\"b", `'`}, {"plain", ""}, {"é", `"`}, {"", `"`}, {"1&lt;2", `'`}, {"a=b", `"`}, {"p/q", `"`}, {"two\nlines", `"`},
+	{"v", `"`}, {"a b", `"`}, {"x&amp;y", `"`}, {"it&#39;s", `"`}, {"say &quot;hi&quot;", `"`}, {"a'b", `"`}, {"a\"b", `'`}, {"plain", ""}, {"é", `"`}, {"", `"`}, {"1&lt;2", `'`}, {"a=b", `"`}, {"p/q", `"`}, {"two\nlines", `"`}, {`C:\temp\new`, `"`}, {`\x3cb\x3e`, `'`},
 	// references without a terminating semicolon and escaped ampersands in front of things that
 	// look like references: html.UnescapeString decodes legacy names and numbers without ';'
 	{"/l?id=1&amp;copy=2", `"`}, {"&amp;lt", `"`}, {"&amp;#38;region", `"`}, {"&amp;#60", `'`}, {"a&b", `"`}, {"&lt", `"`}, {"&amp;amp;", `"`}, {"x &amp;&amp; y", `"`}, {"&#x26;gt", `"`}, {"&copy", `"`},
@@ -348,7 +350,7 @@ func (g *gen) node(depth int) Node {
 		n.Attrs = dedupAttrs(n.Attrs)
 	case 7:
 		n.Kind = rapid.SampledFrom([]string{"htmlcomment", "gocomment", "gocomment"}).Draw(g.t, "comment")
-		n.Text = rapid.SampledFrom([]string{" note ", " it's a \"comment\" ", " <b>not markup</b> ", " é ", " TODO: x ", ""}).Draw(g.t, "ctext")
+		n.Text = rapid.SampledFrom([]string{" note ", " it's a \"comment\" ", " <b>not markup</b> ", " é ", " TODO: x ", "", ` C:\temp\new `, ` \x3c!-- `}).Draw(g.t, "ctext")
 		n.Multiline = rapid.Bool().Draw(g.t, "mlc")
 		if n.Kind == "htmlcomment" && rapid.IntRange(0, 3).Draw(g.t, "mlhtml") == 0 {
 			n.Text = " first line\n\t\tsecond line " // an HTML comment is rendered byte for byte
@@ -502,12 +504,12 @@ func (g *gen) node(depth int) Node {
 			}
 		}
 		if n.Kind == "style" {
-			n.Text = rapid.SampledFrom([]string{"", ".a { color: red; }", "\n\t.b > p { margin: 0 }\n\t", "/* é */ .c::after { content: \"x\"; }"}).Draw(g.t, "css")
+			n.Text = rapid.SampledFrom([]string{"", ".a { color: red; }", "\n\t.b > p { margin: 0 }\n\t", "/* é */ .c::after { content: \"x\"; }", `.q::before { content: '\201C'; }`}).Draw(g.t, "css")
 			if g.o.BigLiterals && rapid.IntRange(0, 3).Draw(g.t, "big") == 0 {
 				n.Text = strings.Repeat(".k > p { margin: 0; content: \"é\\\"\"; }\n", rapid.SampledFrom([]int{1500, 1700, 5000}).Draw(g.t, "bigrep"))
 			}
 		} else {
-			pool := []string{"", "var a = 1;", "\n\t\tif (1 < 2) { console.log(\"é\"); }\n\t", "var s = 'it\\'s'; // c\n\t"}
+			pool := []string{"", "var a = 1;", `var re = /\bfoo\b/;`, "\n\t\tif (1 < 2) { console.log(\"é\"); }\n\t", "var s = 'it\\'s'; // c\n\t"}
 			if g.o.ScriptExprs {
 				pool = append(pool, "var a = {{ s1 }};", "var a = \"{{ s1 }}\";", "var a = '{{ s1 }}', b = {{ s1 }};")
 			}
